@@ -32,6 +32,8 @@ type keptResult struct {
 	call string
 	raw  []byte
 	snap string
+	err  error  // an error VALUE a caller may hold on to: its text must not change under later calls
+	etxt string // err.Error() when it was returned
 }
 
 type apiCall struct {
@@ -134,6 +136,8 @@ func newAPIWorld() *apiWorld {
 		sb.WriteString(`","n":` + fmt.Sprint(n) + tail)
 		return sb.String()
 	}
+	w.bufs["deep3k"] = []byte(strings.Repeat("[", 3000) + `{"k":[1,"s"]}` + strings.Repeat("]", 3000))
+	w.snaps["deep3k"] = string(w.bufs["deep3k"])
 	w.bufs["doc64K"] = []byte(`{"a":[` + strings.Repeat(`{"k":"v<"},`, 6500) + `0],"z":1}`) // about 78 KB
 	w.snaps["doc64K"] = string(w.bufs["doc64K"])
 	for k, t := range map[string]string{"bigA": big(1, "}"), "bigB": big(2, "}"), "bigBad": big(1, ",}")} {
@@ -266,6 +270,7 @@ func newAPIWorld() *apiWorld {
 			}
 			return []byte(sb.String()), nil
 		}},
+		{"Equal(deep3k,deep3k) [nesting 3000: several at once exceed any process-wide depth budget]", true, func(w *apiWorld) ([]byte, error) { return boolBytes(v5.Equal(B("deep3k"), B("deep3k"))), nil }},
 		// rejected inputs with very many open containers (the scanner keeps / drops its stack)
 		{"Equal(deepOpen,docObj) [2000 unclosed brackets]", true, func(w *apiWorld) ([]byte, error) { return boolBytes(v5.Equal(B("deepOpen"), B("docObj"))), nil }},
 		{"P.Apply(deepOver) [nesting 10001]", true, func(w *apiWorld) ([]byte, error) { return w.patches["patchOK"].Apply(B("deepOver")) }},
@@ -301,7 +306,7 @@ func newAPIWorld() *apiWorld {
 		{"legacy MergePatch(docObj,mp1)", false, func(w *apiWorld) ([]byte, error) { return v4.MergePatch(B("docObj"), B("mp1")) }},
 	}
 	for i, c := range w.calls {
-		if !strings.Contains(c.Name, "docS") && !strings.Contains(c.Name, "patchS") && !strings.Contains(c.Name, "eqS1") && !strings.HasPrefix(c.Name, "Ps.") && !strings.HasPrefix(c.Name, "ProotS.") && !strings.HasPrefix(c.Name, "CreateMergePatch(big") && !strings.HasPrefix(c.Name, "PbigS.") && !strings.HasPrefix(c.Name, "P64.") {
+		if !strings.Contains(c.Name, "docS") && !strings.Contains(c.Name, "patchS") && !strings.Contains(c.Name, "eqS1") && !strings.HasPrefix(c.Name, "Ps.") && !strings.HasPrefix(c.Name, "ProotS.") && !strings.HasPrefix(c.Name, "CreateMergePatch(big") && !strings.HasPrefix(c.Name, "PbigS.") && !strings.HasPrefix(c.Name, "P64.") && !strings.HasPrefix(c.Name, "Equal(deep3k") {
 			w.menu = append(w.menu, i)
 		}
 	}
@@ -452,6 +457,9 @@ func (w *apiWorld) outcome(i int) (out string) {
 		*w.keep = append(*w.keep, keptResult{call: c.Name, raw: b, snap: string(b)})
 	}
 	if err != nil {
+		if w.keep != nil {
+			*w.keep = append(*w.keep, keptResult{call: c.Name, err: err, etxt: err.Error()})
+		}
 		if b != nil {
 			return "err+doc: " + err.Error() + " / " + string(b)
 		}
